@@ -20,6 +20,10 @@ RULE = ('programs are generated as JSON ASTs (vp/gen/c16_gen.py), rendered to XP
         'clauses, by currying, partial application in a loop) and the items called later in generated order. expand: '
         'the definitional expansions of the HOFs, partial application and named references, both sides evaluated by '
         'elementpath and by the reference. sort: stable ordered permutation on items carrying their input position. '
+        'sort-hetero: fn:sort / array:sort with type-discriminating key functions over items that are equal as python '
+        'objects but distinct XPath values (true()/1/1.0e0/xs:float(1), "b"/untypedAtomic/anyURI), judged strictly by type. '
+        'closure also holds empty-closure items whose parameter is a variable at the call site (read after the call) and '
+        'partial applications whose fixed argument is ., position(), name() or a child step, called under another focus. '
         'history: function items and parser.get_function objects called repeatedly from python. non-trivial = >= 2 '
         'items from one function expression, or an item called after its creating scope advanced, or one item called '
         '>= 2 times, or a call nested in its own argument, or a HOF with a closure; distinct by rendered program.')
@@ -44,6 +48,10 @@ FLOORS = {
     'sort:ties': (0.40, 'sort:case'),
     'history:repeat-call': (0.30, 'history:case'),
     'misuse:error-demanded': (0.60, 'misuse:case'),
+    'closure:pattern:empty-closure': (0.10, 'closure:case'),
+    'closure:pattern:focus-partial': (0.10, 'closure:case'),
+    'sort-hetero:python-equal-twins': (0.70, 'sort-hetero:case'),
+    'program:param-shadows-variable': (0.08, 'program:case'),
 }
 
 _HOFS = {'for-each', 'filter', 'fold-left', 'fold-right', 'for-each-pair', 'apply', 'sort'}
@@ -122,6 +130,10 @@ def program_classes(ast, ip):
         cls.append('named-ref')
     if any(n[0] == 'inline' and any(not isinstance(p, str) for p in n[1]) or n[0] == 'inline' and len(n) > 3 for n in ns):
         cls.append('typed-signature')
+    params = {p if isinstance(p, str) else p[0] for n in inl for p in n[1]}
+    bound = {nm for n in ns if n[0] in ('for', 'let', 'some', 'every') for nm, _ in n[1]}
+    if params & bound:
+        cls.append('param-shadows-variable')
     if ip is not None:
         if ip.multi_created:
             cls.append('multi-created')
@@ -203,7 +215,7 @@ def judge_program(case, rec: Recorder | None = None, check='program', localize=T
     discs: list[Disc] = []
     status = exp[0]
     if exp[0] != 'skip':
-        obs = base.run_ep(expr, v, False)
+        obs = base.run_ep(expr, v, base._needs_doc(ast))
         kind = compare(exp, obs)
         if exp[0] == 'err' and not exp[2]:
             status = 'error-nested'
@@ -447,6 +459,116 @@ def judge_sort(case, rec: Recorder | None = None) -> list[Disc]:
 
 
 # --------------------------------------------------------------------------
+# sort-hetero: items that are == and hash alike in python but are distinct XPath values
+# --------------------------------------------------------------------------
+def _het_keyfn(name):
+    X = ['var', 'x']
+    inst = lambda t: ['instance', X, t]                     # noqa: E731
+    as_int = ['call', 'xs:integer', [X]]
+
+    def rank(table, default):
+        e = default
+        for t, r in reversed(table):
+            e = ['if', inst(t), r, e]
+        return e
+    ranks = [('xs:boolean', ['int', 4]), ('xs:integer', ['int', 3]), ('xs:decimal', ['int', 5]), ('xs:float', ['int', 2]),
+             ('xs:double', ['int', 1]), ('xs:untypedAtomic', ['int', 7]), ('xs:anyURI', ['int', 6])]
+    if name == 'bool-offset':       # the coordinator's example
+        body = ['if', inst('xs:boolean'), ['arith', '+', ['int', 10], as_int], X]
+    elif name == 'bool-last':
+        body = ['if', inst('xs:boolean'), ['int', 99], X]
+    elif name == 'type-rank':
+        body = rank(ranks, ['int', 8])
+    elif name == 'rank-plus-value':
+        body = ['arith', '+', ['arith', '*', as_int, ['int', 10]], rank(ranks, ['int', 8])]
+    elif name == 'neg-rank-plus-value':
+        body = ['neg', ['arith', '+', ['arith', '*', rank(ranks, ['int', 8]), ['int', 10]], as_int]]
+    elif name == 'rank-and-string':
+        body = ['call', 'concat', [['call', 'string', [X]], rank([('xs:untypedAtomic', ['str', '1']), ('xs:anyURI', ['str', '2'])], ['str', '3'])]]
+    elif name == 'string-only':
+        body = ['call', 'string', [X]]
+    else:
+        raise ValueError(name)
+    return ['inline', ['x'], body]
+
+
+def _uncanon(c):
+    t, v = c
+    if t == 'd':
+        return ('d', base._frac(v))
+    if t in 'fD':
+        return (t, float('nan') if v == 'NaN' else float(v))
+    return (t, v)
+
+
+def _flat(canon_seq_):
+    out = []
+    for it in canon_seq_:
+        if it[0] == 'A':
+            for m in it[1]:
+                out.extend(m)
+        else:
+            out.append(it)
+    return out
+
+
+def judge_sort_hetero(case, rec: Recorder | None = None) -> list[Disc]:
+    v, kf = case['v'], case['keyfn']
+    keyfn = _het_keyfn(kf)
+    items = case['items']
+    if case['fn'] == 'sort':
+        src = ['seq', *items]
+    else:
+        src = ['array', items]
+    K = ['var', 'k'] if case['via'] == 'let' else keyfn
+    call = ['call', case['fn'], [src, ['empty'], K]]
+    prog = ['let', [['k', keyfn]], call] if case['via'] == 'let' else call
+    expr = interp.render(prog)
+    exp, ip = ref_eval(prog, v)
+    discs: list[Disc] = []
+    if exp[0] == 'val':
+        want = _flat(exp[1])
+        obs = base.run_ep(expr, v, False)
+        kind = None
+        if obs[0] == 'err':
+            kind = f'unexpected-error:{obs[1]}'
+        elif obs[0] == 'escape':
+            kind = 'escape:' + type(obs[1]).__name__
+        elif obs[1] != want:                       # strict: the type of every item matters here
+            got = obs[1]
+            if sorted(map(canon, got)) != sorted(map(canon, want)):
+                kind = 'not-a-permutation'
+            else:
+                ip2 = interp.Interp(v)
+                f = ip2.run(keyfn)[0]
+                try:
+                    ks = [interp.atomize(ip2.call(f, [[_uncanon(o)]])) for o in got]
+                    ordered = not any(interp.sort_key_lt(b, a) for a, b in zip(ks, ks[1:]))
+                except XPError:
+                    ordered = False
+                kind = 'not-stable' if ordered else 'not-ordered-by-key'
+        if kind:
+            discs.append(Disc(f'C16/sort-hetero/{kf}/{kind}', want, _show(obs), f'{v}: {expr}'))
+    if rec is not None:
+        tags = {it[0] for it in items}
+        twins = any(canon(a) != canon(b) and a[0] != b[0] and _py_equal(a, b) for a in items for b in items)
+        rec.case([v, expr], nontrivial=exp[0] == 'val' and len(items) >= 2,
+                 sample={'check': 'sort-hetero', 'expr': expr},
+                 classes=['sort-hetero:case', f'sort-hetero:key:{kf}', f'sort-hetero:{case["fn"]}', f'sort-hetero:{exp[0]}'] +
+                         (['sort-hetero:python-equal-twins'] if twins else []) + (['sort-hetero:mixed-pool'] if len(tags) > 4 else []))
+    return discs
+
+
+def _py_equal(a, b):
+    """the two literal items are equal (and hash alike) as python objects in elementpath's representation"""
+    num = {'bool': lambda v: float(bool(v)), 'int': float, 'dec': float, 'dbl': float, 'flt': float}
+    if a[0] in num and b[0] in num:
+        return num[a[0]](a[1]) == num[b[0]](b[1])
+    strs = ('str', 'unt', 'uri')
+    return a[0] in strs and b[0] in strs and a[1] == b[1]
+
+
+# --------------------------------------------------------------------------
 # history: function items called repeatedly from python
 # --------------------------------------------------------------------------
 def _norm(r):
@@ -579,9 +701,9 @@ def judge_misuse(case, rec: Recorder | None = None) -> list[Disc]:
     return discs
 
 
-_STRATS = {'misuse': c16_gen.misuse_case(), 'closure': _closure_case(), 'expand': c16_gen.expansion_case(), 'sort': c16_gen.sort_case(),
+_STRATS = {'sort-hetero': c16_gen.hetero_sort_case(), 'misuse': c16_gen.misuse_case(), 'closure': _closure_case(), 'expand': c16_gen.expansion_case(), 'sort': c16_gen.sort_case(),
            'history': c16_gen.history_case()}
-_JUDGES = {'misuse': judge_misuse, 'closure': judge_closure, 'expand': judge_expand, 'sort': judge_sort, 'history': judge_history}
+_JUDGES = {'sort-hetero': judge_sort_hetero, 'misuse': judge_misuse, 'closure': judge_closure, 'expand': judge_expand, 'sort': judge_sort, 'history': judge_history}
 
 
 def selftest():
@@ -602,8 +724,9 @@ def jobs(tier, seed):
     q = tier == 'quick'
     # measured cpu per shard (idle core): program 22 ms/example (5 programs), others 2-3 ms/case
     # quick: longest shard about 30 s cpu (60 s target with margin); thorough: about 10 min
-    plan = [('program', 8, 1300 if q else 28000), ('closure', 2, 4000 if q else 60000), ('expand', 2, 5000 if q else 80000),
-            ('sort', 2, 4000 if q else 60000), ('history', 1, 5500 if q else 80000), ('misuse', 1, 3500 if q else 40000)]
+    plan = [('program', 7, 1300 if q else 28000), ('closure', 3, 4000 if q else 60000), ('expand', 2, 5000 if q else 80000),
+            ('sort', 1, 5000 if q else 80000), ('sort-hetero', 1, 5000 if q else 80000), ('history', 1, 5500 if q else 80000),
+            ('misuse', 1, 3500 if q else 40000)]
     out = []
     for name, shards, n in plan:
         for i in range(shards):
